@@ -420,7 +420,13 @@ Definition wf_slice (m : mem) (s : slice) : bool :=
   (arr s <? length m)%nat && (len s <=? cap s)%nat && (off s + cap s <=? length (arr_of m (arr s)))%nat.
 Definition elem_ok (v : Z) : bool := (0 <=? v) && (v <? 60).
 Definition sl (c : case) (i : nat) : slice := nth i (c_sl c) nil_slice.
-Definition arg (c : case) (i : nat) : Z := nth i (c_args c) 0.
+(* integer arguments travel as tokens below 2^61: a token within 1000 of +-2^60 stands for the Go int that far from
+   MaxInt / MinInt (so that math.MaxInt, math.MinInt and their neighbours can be passed to the real functions) *)
+Definition ext_arg (v : Z) : Z :=
+  if (2 ^ 60 - 1000 <=? v) && (v <=? 2 ^ 60) then 2 ^ 63 - 1 - (2 ^ 60 - v)
+  else if (- 2 ^ 60 <=? v) && (v <=? - 2 ^ 60 + 1000) then - 2 ^ 63 + (v + 2 ^ 60)
+  else v.
+Definition arg (c : case) (i : nat) : Z := ext_arg (nth i (c_args c) 0).
 (* what the harness's callbacks can compute without overflow or a panic of their own *)
 Definition args_ok (c : case) : bool :=
   let f := c_f c in
